@@ -140,6 +140,17 @@ CHECKS["C08"] = dict(
     design="5/C08",
 )
 
+CHECKS["C19"] = dict(
+    technique="generated programs with adversarial identifiers bound in every way; three oracles per (program, rule): differential execution, a reference binding graph (own scope analysis over the AST) whose partition of identifier occurrences into bindings must be invariant under a pure renaming, and validity of every new identifier",
+    text="Programs assembled from binding-form blocks whose names are case/underscore variants of each other, builtin- and keyword-like, or "
+         "shaped like generated names, go through the renaming rules (naming convention with random preserve sets, unused-name underscore, "
+         "duplicate-function merge, static-method extraction, the name-inventing rules) and format_code; the result must behave the same, "
+         "every reference must stay with its binding (no split), no two bindings may become one (no capture), and new names must be valid, "
+         "non-keyword, non-builtin identifiers.",
+    note="Attribute and keyword-argument consistency is decided by the execution oracle; moving a never-read store to '_' is not a split; behaviour changes caused by rules that do not rename are counted and left to C01/C02.",
+    design="5/C19",
+)
+
 CHECKS["C14"] = dict(
     technique="differential property test against a tree-level reference substitution: generated (pattern, replacement, source, count) cases; a parallel walk of source tree and result tree must explain every difference as a reference match replaced by the template instantiated on trees with that match's bindings",
     text="Patterns (expression, statement, statement-sequence) derived from repository examples and directed sources are substituted with marker "
